@@ -98,9 +98,14 @@ def tie_charpoly(ctx):
     while len(prepared) < count and tries < count * 20:
         tries += 1
         partial = len(prepared) % 3 == 2
+        unsorted_deg = len(prepared) % 5 == 4
         N = 3 if partial else rng.choice([2, 3])
         small = lambda c: 2 <= len(c["sub"]) <= 4 and not (len(c["sub"]) == 2 and rng.random() < 0.7)
-        if partial:  # a 3-state block with a partial elimination mask (+ at most one more state)
+        if unsorted_deg:  # exact-float H_0 as an unsorted diagonal with a degenerate level in a fully diagonalised block
+            case = o_charpoly.unsorted_degenerate_case(rng, N, "exact", cplx=False, max_extra=1, max_params=2)
+            if len(case["sub"]) > 4:
+                continue
+        elif partial:  # a 3-state block with a partial elimination mask (+ at most one more state)
             case = o_charpoly.focused_case(rng, N, "partial-mask", accept=small, cplx=False, max_blocks=2, max_size=3,
                                            max_params=2, fmt=rng.choice(["sympy", "sympy", "dense", "sparse"]))
         else:
@@ -133,6 +138,8 @@ def tie_charpoly(ctx):
             kk = "%s=%s" % (key, sig[key])
             dist[kk] = dist.get(kk, 0) + 1
         dist["N=%d" % N] = dist.get("N=%d" % N, 0) + 1
+        if o_charpoly.is_unsorted_degenerate(case):
+            dist["unsorted-degenerate-H0"] = dist.get("unsorted-degenerate-H0", 0) + 1
         if any(Ht[i][j][m] != 0 for i in range(dim) for j in range(dim) for m in range(2, N + 1)):
             seen.add(core.sha(core.canon(case)))
     # control: corrupt the x^2 coefficient of H_tilde[0,0] of the first case; must be rejected
